@@ -178,7 +178,7 @@ fn data_for(rng: &mut Rng, tag: u32, ty: u32, count: usize) -> TData {
     }
 }
 
-fn gen_typed(rng: &mut Rng) -> Vec<u8> {
+pub fn gen_typed(rng: &mut Rng) -> Vec<u8> {
     let mut hdr = GHeader::new();
     let nfiles = 1 + rng.below(4) as usize;
     // decide per group: 0 = each tag independently, 1 = consistent (all present, natural types, common length)
